@@ -124,6 +124,10 @@ type ObjectStatusReporter struct {
 
 	started bool
 	stopped bool
+
+	// fatalErrorSent is set by the first call of handleFatalError that
+	// reports an error. Only one error event is ever sent.
+	fatalErrorSent bool
 }
 
 func (w *ObjectStatusReporter) Start(ctx context.Context) <-chan event.Event {
@@ -712,6 +716,16 @@ func (w *ObjectStatusReporter) newStatusCheckTaskFunc(
 func (w *ObjectStatusReporter) handleFatalError(eventCh chan<- event.Event, err error) {
 	klog.V(5).Infof("Reporter error: %v", err)
 	if errors.Is(err, context.Canceled) || errors.Is(err, context.DeadlineExceeded) {
+		return
+	}
+	// Several informers can fail at the same time (and none of them is
+	// stopped before the first error event has been consumed).
+	// Only the first fatal error is reported.
+	w.lock.Lock()
+	alreadySent := w.fatalErrorSent
+	w.fatalErrorSent = true
+	w.lock.Unlock()
+	if alreadySent {
 		return
 	}
 	eventCh <- event.Event{
